@@ -233,5 +233,7 @@ def run(ctx):
     shards = 16
     tasks = [{"seed": ctx.seed, "shard": i, "count": 10 if quick else 600} for i in range(shards)]
     ctx.map("checks.c11", "trace_task", tasks, timeout=3000)
+    ctx.map("checks.c11", "trace_task", [dict(t, shard=100 + t["shard"], count=max(3, t["count"] // 4), real=False) for t in tasks[:4]],
+            timeout=3000, python_flags=("-O",))  # assertions off
     if ctx.counters.get("report_rows", 0) < 100 or ctx.counters.get("traces_with_tied_maximum", 0) < 3:
         ctx.inconc("too few report rows / tied maxima observed")
